@@ -47,6 +47,61 @@ func bufferWrites(fn *ssa.Function) []string {
 	return out
 }
 
+// finalBufferWrites: the ordered items written into the buffer whose Bytes() the function returns
+// (after its last Reset, if any).
+func finalBufferWrites(fn *ssa.Function) []string {
+	var buf string
+	for _, ret := range returnsOf(fn) {
+		c := canon(retValue(ret, 0))
+		if strings.HasPrefix(c, "bytes.Buffer.Bytes(") {
+			buf = strings.TrimSuffix(strings.TrimPrefix(c, "bytes.Buffer.Bytes("), ")")
+		}
+	}
+	if buf == "" {
+		return nil
+	}
+	var reset ssa.Instruction
+	for _, cs := range callsTo(fn, false, "bytes.Buffer.Reset") {
+		if cs.Arg(0) == buf {
+			reset = cs.Instr
+		}
+	}
+	type w struct {
+		in ssa.Instruction
+		s  string
+	}
+	var ws []w
+	for _, cs := range callSites(fn, false) {
+		if reset != nil && !dominates(reset, cs.Instr) {
+			continue
+		}
+		switch cs.Callee() {
+		case "bytes.Buffer.WriteString", "bytes.Buffer.Write":
+			if cs.Arg(0) == buf {
+				ws = append(ws, w{cs.Instr, cs.Arg(1)})
+			}
+		case "encoding/binary.Write":
+			if cs.Arg(0) == buf {
+				dv := cs.ArgValues()[2]
+				if mi, ok := dv.(*ssa.MakeInterface); ok {
+					dv = mi.X
+				}
+				ws = append(ws, w{cs.Instr, "be:" + cs.Arg(2) + ":" + shortType(dv.Type())})
+			}
+		case "github.com/whyrusleeping/cbor-gen.WriteByteArray":
+			if cs.Arg(0) == buf {
+				ws = append(ws, w{cs.Instr, "cborbytes:" + cs.Arg(1)})
+			}
+		}
+	}
+	sort.SliceStable(ws, func(i, j int) bool { return dominates(ws[i].in, ws[j].in) })
+	var out []string
+	for _, x := range ws {
+		out = append(out, x.s)
+	}
+	return out
+}
+
 func c14(p *P) {
 	r := p.r
 	r.Explanation = "Static necessary conditions of binding, agreeing and robust encodings: (R1) the exact ordered sequence of items written into the signed bytes of a payload, of a tipset and of the VRF input — every field present, integers fixed-width big-endian, the variable-length network name fenced by separators, distinct domain tags; (R2) the three chain-key computations (direct, batch, cached prefixes) hash TipSet.MarshalForSigning of every tipset in order and prefix i gets batch[i]; (R3) for every generated CBOR codec the fields written, the fields read and the struct declaration agree in order and count with the array header; (R4) in every generated decoder each allocation sized by a decoded header is unreachable unless the size passed an upper-bound comparison, and each cborgen maxlen tag appears as such a bound; (R5) the hand-written ECChain codec resets the receiver (incl. the cached key) before filling it and round-trips through the legacy slice type; (R6) the zstd codec: decoder memory cap and cap-limited DecodeAll with the same 1 MiB constant as the pooled buffer, encode-side size check, and the pooled buffer is returned only after the CBOR decode that reads from it has finished."
@@ -61,7 +116,7 @@ func c14(p *P) {
 
 	// ---------- R1
 	if f := p.fn("C14.R1", "gpbft.Payload.MarshalForSigningWithValueKey"); f != nil {
-		got := bufferWrites(f)
+		got := finalBufferWrites(f)
 		tag := fmt.Sprintf("%q", constStringOf(p, "gpbft", "DomainSeparationTag"))
 		want := []string{tag, `":"`, "$1", `":"`, "be:$0.Phase:gpbft.Phase", "be:$0.Round:uint64", "be:$0.Instance:uint64", "&$0.SupplementalData.Commitments[:]", "&$2[:]", "github.com/ipfs/go-cid.Cid.Bytes($0.SupplementalData.PowerTable)"}
 		r.Check(eqSeq(normSeq(got), want), "C14.R1", "Payload signing bytes: tag ‖ : ‖ network ‖ : ‖ phase ‖ round ‖ instance ‖ commitments ‖ value key ‖ power-table CID", p.c.Pos(f.Pos()), strings.Join(got, " ‖ "),
@@ -71,25 +126,17 @@ func c14(p *P) {
 		}
 	}
 	if f := p.fn("C14.R1", "gpbft.TipSet.MarshalForSigning"); f != nil {
-		got := bufferWrites(f)
-		okSeq := len(got) == 4 && got[0] == "cborbytes:$0.Key" && got[1] == "be:$0.Epoch:int64" && got[2] == "$0.Commitments[:]"
-		okCid := false
-		pt := ""
-		if len(got) == 4 {
-			pt = got[3]
-		}
-		// after Reset the CID of the key bytes and the power table CID follow
-		var rest []string
-		for _, cs := range callsTo(f, false, "bytes.Buffer.Write") {
-			rest = append(rest, cs.Arg(1))
-		}
-		okCid = len(rest) == 3 && strings.HasPrefix(rest[1], "github.com/ipfs/go-cid.Cid.Bytes(gpbft.MakeCid(bytes.Buffer.Bytes(") && rest[2] == "github.com/ipfs/go-cid.Cid.Bytes($0.PowerTable)"
-		_ = okSeq
-		_ = pt
-		r.Check(okCid && len(got) >= 4 && got[0] == "cborbytes:$0.Key" && got[1] == "be:$0.Epoch:int64" && got[2] == "&$0.Commitments[:]", "C14.R1", "TipSet signing bytes: epoch ‖ commitments ‖ CID(key) ‖ power-table CID", p.c.Pos(f.Pos()), strings.Join(got, " ‖ "), "tipset bytes are ["+strings.Join(got, " ‖ ")+"]")
+		got := finalBufferWrites(f)
+		ok := len(got) == 4 && got[0] == "be:$0.Epoch:int64" && got[1] == "&$0.Commitments[:]" &&
+			re(`^github\.com/ipfs/go-cid\.Cid\.Bytes\(gpbft\.MakeCid\(bytes\.Buffer\.Bytes\(.*\)\)\)$`).MatchString(got[2]) && got[3] == "github.com/ipfs/go-cid.Cid.Bytes($0.PowerTable)"
+		// the CID is over the CBOR byte-array encoding of the tipset key
+		wk := callsTo(f, false, "github.com/whyrusleeping/cbor-gen.WriteByteArray")
+		mc := callsTo(f, false, "gpbft.MakeCid")
+		okKey := len(wk) == 1 && len(mc) == 1 && wk[0].Arg(1) == "$0.Key" && dominates(wk[0].Instr, mc[0].Instr) && strings.Contains(mc[0].Arg(0), strings.TrimPrefix(wk[0].Arg(0), "&"))
+		r.Check(ok && okKey, "C14.R1", "TipSet signing bytes: epoch ‖ commitments ‖ CID(CBOR(key)) ‖ power-table CID", p.c.Pos(f.Pos()), strings.Join(got, " ‖ "), "tipset bytes are ["+strings.Join(got, " ‖ ")+"]")
 	}
 	if f := p.fn("C14.R1", "gpbft.vrfSerializeSigInput"); f != nil {
-		got := bufferWrites(f)
+		got := finalBufferWrites(f)
 		tag := fmt.Sprintf("%q", constStringOf(p, "gpbft", "DomainSeparationTagVRF"))
 		want := []string{tag, `":"`, "$3", `":"`, "$0", `":"`, "be:$1:uint64", "be:$2:uint64"}
 		r.Check(eqSeq(normSeq(got), want), "C14.R1", "VRF input: tag ‖ : ‖ network ‖ : ‖ beacon ‖ : ‖ instance ‖ round", p.c.Pos(f.Pos()), strings.Join(got, " ‖ "), "VRF input is ["+strings.Join(got, " ‖ ")+"]")
@@ -109,24 +156,24 @@ func c14(p *P) {
 		p.chainKeyInputs("C14.R2", kf, "merkle.Tree", "merkle.Tree")
 	}
 	if ap := p.c.Fn("gpbft.ECChain.AllPrefixes"); ap != nil {
-		// prefix i: TipSets[:i+1], key := batch[i]
+		// prefix i: TipSets[:i+1], key := batch[i]  (lin(high) − lin(index) = 1)
 		okSlice, okKey := false, false
+		var high *Lin
 		allValues(ap, func(v ssa.Value) {
 			if sl, ok := v.(*ssa.Slice); ok && strings.HasSuffix(canon(sl.X), "$0.TipSets") && sl.High != nil {
 				h := linOf(sl.High)
-				for s, c := range h.T {
-					if c == 1 && h.C == 1 && strings.HasPrefix(s, "(phi(") || (c == 1 && h.C == 1) {
-						okSlice = true
-					}
-					_ = s
-				}
+				high, okSlice = &h, true
 			}
 		})
 		for _, cs := range callsTo(ap, false, "copy") {
-			a, b := cs.Arg(0), cs.Arg(1)
-			if strings.Contains(a, ".key[:]") && strings.Contains(b, "merkle.BatchTree(") {
-				// same index as the slice bound minus one
-				okKey = strings.Contains(b, "[(phi(-1|↻) + 1)]") || strings.Contains(b, ")[phi(")
+			if !strings.Contains(cs.Arg(0), ".key[:]") || !strings.Contains(cs.Arg(1), "BatchTree(") || high == nil {
+				continue
+			}
+			if sl, ok := cs.ArgValues()[1].(*ssa.Slice); ok {
+				if ia, ok := sl.X.(*ssa.IndexAddr); ok {
+					d := high.add(linOf(ia.Index), -1)
+					okKey = len(d.T) == 0 && d.C == 1
+				}
 			}
 		}
 		r.Check(okSlice && okKey, "C14.R2", "AllPrefixes: prefix i = TipSets[:i+1] with cached key batch[i]", p.c.Pos(ap.Pos()), "slice and key use the same index", "prefix objects get the key of a different prefix")
@@ -308,6 +355,41 @@ func (p *P) chainKeyInputs(rule string, f *ssa.Function, callee, short string) {
 	name := funcName(f)
 	ms := callsTo(f, false, "gpbft.TipSet.MarshalForSigning")
 	mk := callsTo(f, false, callee)
+	if len(mk) == 0 {
+		for _, cs := range callSites(f, false) {
+			if strings.HasSuffix(cs.Callee(), short) {
+				mk = append(mk, cs)
+			}
+		}
+	}
+	if len(ms) == 0 && len(mk) == 1 {
+		// the leaves may be produced by a shared helper: values := leaves(c); follow it
+		if call, ok := deref(mk[0].ArgValues()[0]).(*ssa.Call); ok {
+			if h := call.Call.StaticCallee(); h != nil && h.Blocks != nil && h.Pkg != nil && strings.HasPrefix(h.Pkg.Pkg.Path(), modPath) {
+				hm := callsTo(h, false, "gpbft.TipSet.MarshalForSigning")
+				okArg := len(call.Call.Args) >= 1 && (canon(call.Call.Args[0]) == "$0" || canon(call.Call.Args[0]) == "$^0")
+				if len(hm) == 1 && okArg {
+					p.fullRangeLoop(rule, name+": every tipset contributes to the key (via "+funcName(h)+")", hm[0].Instr, nil)
+					okStore := false
+					for _, in := range instrsOf(h) {
+						if st, isSt := in.(*ssa.Store); isSt && st.Val == hm[0].Value() {
+							if _, isIA := st.Addr.(*ssa.IndexAddr); isIA {
+								okStore = true
+							}
+						}
+						if c2, isC := in.(*ssa.Call); isC {
+							if b, isB := c2.Call.Value.(*ssa.Builtin); isB && b.Name() == "append" && len(c2.Call.Args) == 2 && strings.Contains(canon(c2.Call.Args[1]), "MarshalForSigning(") {
+								okStore = true
+							}
+						}
+					}
+					r.Check(okStore, rule, name+": values[i] = tipset i's signing bytes", p.c.InstrPos(hm[0].Instr), hm[0].Arg(0), "leaf values are not the tipsets' signing bytes in order")
+					r.OK(rule, name+": merkle function applied to those values", p.c.InstrPos(mk[0].Instr), mk[0].Arg(0))
+					return
+				}
+			}
+		}
+	}
 	if len(mk) == 0 {
 		// merkle package path
 		for _, cs := range callSites(f, false) {
